@@ -25,6 +25,14 @@ Theorem C08_untied_decidable : forall e t x, untiedb e t x = true -> untied e t 
 Proof. exact untiedb_sound. Qed.
 Print Assumptions C08_untied_decidable.
 
+(* the relation is inhabited by the reference behaviour: slicing ANY ascending arrangement of the projections by the code's
+   rank counts, with the element of rank (m-1)/2 as threshold, is accepted with zero slack — for every size and overlap *)
+Theorem C08_sort_and_slice_is_accepted :
+  forall (s : list Q) (o : Z), asc s -> (0 <= o <= Z.of_nat (length s))%Z -> s <> [] ->
+  rank_split_okb 0 (model_median s) (model_lu s o) (model_ov s o) (model_ru s o) = true.
+Proof. exact model_split_accepted. Qed.
+Print Assumptions C08_sort_and_slice_is_accepted.
+
 (* non-vacuity: 5 samples (odd), projections 1 2 2 3 5, median 2: sorted ranks -> left 3, right 2 *)
 Example C08_example_odd : rank_split_okb 0 2 [1; 2; 2] [] [3; 5] = true.
 Proof. vm_compute. reflexivity. Qed.
